@@ -5,6 +5,9 @@
    qname = <prefix>:<local>, decl = <prefix>=<uri>, binding = b<prefix>=<uri>   (code points joined by '.',
    an absent prefix or an empty uri is the empty string)
    test = t* | tp<prefix> | tn<prefix>:<local>
+   attribute definition of the DTD (document order, before the elements)
+     d/<element type qname>/D/<declared prefix>/<V|F|R|I>/<value>      xmlns / xmlns:p
+     d/<element type qname>/A/<attribute qname>/<V|F|R|I>/<value>      an ordinary attribute
    Output: identical to harness/src/domains/ns.rs. *)
 let ns_str (s : string) : n list =
   if s = "" then [] else List.map (fun x -> n_of_int (int_of_string x)) (String.split_on_char '.' s)
@@ -42,6 +45,17 @@ let ns_tree (ws : string list) : tree =
       Node (e, List.rev !kids)
     | [] -> failwith "tree" in
   node ()
+let ns_nsdef (w : string) : nsdef =
+  match String.split_on_char '/' w with
+  | [_; ty; k; n; dk; v] ->
+    { nd_elem = ns_qname ty;
+      nd_name = (match k with "D" -> ANDecl (ns_opt n) | "A" -> ANAttr (ns_qname n) | _ -> failwith "nsdef");
+      nd_default = (match dk with "V" -> NDValue (ns_str v) | "F" -> NDFixed (ns_str v) | "R" -> NDRequired
+                                | "I" -> NDImplied | _ -> failwith "nsdef") }
+  | _ -> failwith "nsdef"
+let ns_dtd (ws : string list) : nsdef list =
+  List.map ns_nsdef (List.filter (fun w -> String.length w > 1 && w.[0] = 'd' && w.[1] = '/') ws)
+let ns_elems (ws : string list) : string list = List.filter (fun w -> w.[0] = 'n') ws
 let ns_enc_opt (u : n list option) : string = match u with None -> "~" | Some s -> enc s
 let ns_qn_string (q : qname) : string =
   match q.qn_prefix with Some p -> ascii p ^ ":" ^ ascii q.qn_local | None -> ascii q.qn_local
@@ -80,22 +94,23 @@ let ns_query (words : string list) =
     let bs = List.filter (fun w -> w.[0] = 'b') rest and es = List.filter (fun w -> w.[0] = 'n') rest in
     let bs = List.map (fun w -> match String.split_on_char '=' (String.sub w 1 (String.length w - 1)) with
         | [p; u] -> (ns_str p, ns_str u) | _ -> failwith "binding") bs in
-    (bs, ns_test t, a = "a1", ns_tree es)
+    (bs, ns_test t, a = "a1", ns_dtd rest, ns_tree es)
   | _ -> failwith "query"
 let () = register "ns" (fun words ->
     try
       match words with
       | "doc" :: es ->
-        let t = ns_tree es in
+        let dt = ns_dtd es in
+        let t = ns_tree (ns_elems es) in
         ns_dump (List.map (fun o -> match o with
             | Some o ->
               let (l, du) = (match o.mo_dom with Some (l, u) -> (l, ns_enc_opt u) | None -> ([], "?")) in
               let iu = (match o.mo_info with Some (_, u) -> ns_enc_opt u | None -> "?") in
               (l, du, iu, o.mo_scope,
                List.map (fun ((q, (al, adu)), (_, aiu)) -> (q, al, ns_enc_opt adu, ns_enc_opt aiu)) o.mo_attrs)
-            | None -> ([], "?", "?", [], [])) (model_doc t))
+            | None -> ([], "?", "?", [], [])) (model_ddoc dt t))
       | "q" :: rest ->
-        let (bs, t, a, d) = ns_query rest in
-        ns_refs (model_select bs t a d)
+        let (bs, t, a, dt, d) = ns_query rest in
+        ns_refs (model_dselect bs t a dt d)
       | _ -> "badinput"
     with Failure m -> "badinput " ^ m)
